@@ -27,6 +27,8 @@ type Env struct {
 	resNames []string
 	loop    *loopInfo
 	con     *Contract
+	calleeFn   *ssa.Function
+	finalCache map[string]envVar
 }
 
 var nilType = types.Typ[types.UntypedNil]
@@ -140,6 +142,8 @@ func (fc *FnCtx) cellByName(st *State, name string) (envVar, bool) {
 func (fc *FnCtx) calleeEnv(con *Contract, fn *ssa.Function, sig *types.Signature, args []*Term, st, pre *State, recvType types.Type) *Env {
 	env := &Env{fc: fc, st: st, old: pre, vars: map[string]envVar{}, con: con}
 	if fn != nil {
+		env.calleeFn = fn
+		env.finalCache = map[string]envVar{}
 		env.pkg = fn.Pkg.Pkg
 		for i, p := range fn.Params {
 			if i < len(args) {
@@ -490,6 +494,16 @@ func (fc *FnCtx) transBin(env *Env, e *CBin) (Val, types.Type) {
 	}
 	l, ltype := fc.transExpr(env, e.L)
 	r, rtype := fc.transExpr(env, e.R)
+	if (e.Op == "==" || e.Op == "!=") && ltype != nilType && rtype != nilType && l != nil && r != nil {
+		if lt, ok := l.(*Term); ok && lt.Sort == "Slice" {
+			// in contracts, == on two slice expressions is equality of the slice headers
+			eq := tb.Eq(lt, r.(*Term))
+			if e.Op == "!=" {
+				eq = tb.Not(eq)
+			}
+			return eq, boolT
+		}
+	}
 	if ltype == nilType && rtype != nilType {
 		l = fc.so.Zero(rtype)
 		ltype = rtype
@@ -558,13 +572,24 @@ func (fc *FnCtx) fieldOf(env *Env, x *Term, xt types.Type, name string) (*Term, 
 		}
 	}
 	cur, ct := x, xt
-	for _, idx := range index {
+	for n, idx := range index {
 		if pt, isP := types.Unalias(ct).Underlying().(*types.Pointer); isP {
 			st, _ := isStructType(pt.Elem())
 			f := st.Field(idx)
-			a := &Addr{Kind: aHeap, Ref: cur, Key: fieldKey(pt.Elem(), f.Name()), RootType: f.Type(), Type: f.Type()}
-			cur = fc.loadRoot(a, env.st)
-			ct = f.Type()
+			switch a := fc.heapFieldAddr(cur, pt.Elem(), idx).(type) {
+			case *Term:
+				// struct-typed field: a sub-object; a value only when it is the selected field
+				if n == len(index)-1 {
+					cur = fc.loadStructObj(a, f.Type(), env.st)
+					ct = f.Type()
+				} else {
+					cur = a
+					ct = types.NewPointer(f.Type())
+				}
+			case *Addr:
+				cur = fc.loadRoot(a, env.st)
+				ct = f.Type()
+			}
 			continue
 		}
 		st, isS := isStructType(ct)
@@ -752,6 +777,35 @@ func (fc *FnCtx) transCall(env *Env, e *CCall) (Val, types.Type) {
 				}
 			}
 			fc.tfail("visited(): no map iteration with key sort %s", k.Sort)
+		case "final":
+			// final(x): value of the local variable x at the return (zero value on paths that return
+			// before its declaration). Lets a postcondition name its witnesses.
+			id, ok := e.Args[0].(*CIdent)
+			if ok && env.calleeFn != nil {
+				// at a call site the callee's final locals are existential witnesses: fresh constants
+				if v, ok := env.finalCache[id.Name]; ok {
+					return v.v, v.t
+				}
+				for _, b := range env.calleeFn.Blocks {
+					for _, in := range b.Instrs {
+						if a, isA := in.(*ssa.Alloc); isA && a.Comment == id.Name && !a.Heap {
+							et := a.Type().(*types.Pointer).Elem()
+							v := envVar{tb.Fresh("final_"+id.Name, fc.so.Sort(et)), et}
+							env.finalCache[id.Name] = v
+							return v.v, v.t
+						}
+					}
+				}
+				fc.tfail("final(%s): no such local in callee", id.Name)
+			}
+			if !ok || fc.finalVals == nil {
+				fc.tfail("final() needs a local variable name and is only available in ensures clauses")
+			}
+			v, ok := fc.finalVals[id.Name]
+			if !ok {
+				fc.tfail("final(%s): no such non-escaping local variable", id.Name)
+			}
+			return v.v, v.t
 		case "atoiOK", "atoiVal":
 			// the two uninterpreted functions behind the strconv.Atoi / strconv.Itoa library model
 			s, _ := argT(0)
@@ -845,13 +899,30 @@ func (fc *FnCtx) transCall(env *Env, e *CCall) (Val, types.Type) {
 				return v, t
 			}
 		}
-		obj, _, _ := types.LookupFieldOrMethod(xt, true, env.pkg, sel.Name)
+		obj, index, _ := types.LookupFieldOrMethod(xt, true, env.pkg, sel.Name)
 		if obj == nil {
 			if n := namedOf(xt); n != nil && n.Obj().Pkg() != nil {
-				obj, _, _ = types.LookupFieldOrMethod(xt, true, n.Obj().Pkg(), sel.Name)
+				obj, index, _ = types.LookupFieldOrMethod(xt, true, n.Obj().Pkg(), sel.Name)
 			}
 		}
 		if m, ok := obj.(*types.Func); ok {
+			if types.IsInterface(xt) {
+				// abstract method: usable in contracts only if declared opaque
+				con, key := fc.eng.ifaceContract(xt, m)
+				if con == nil || !con.Pure {
+					fc.tfail("interface method %s used in a contract has no opaque contract", key)
+				}
+				args := []*Term{xv}
+				for i := range e.Args {
+					a, _ := argT(i)
+					args = append(args, a)
+				}
+				sig := m.Type().(*types.Signature)
+				return fc.ufApp(key, sig, args), sig.Results().At(0).Type()
+			}
+			if len(index) > 1 {
+				xv, xt = fc.walkEmbedded(env, xv, xt, index[:len(index)-1])
+			}
 			return fc.callPureObj(env, m, xv, xt, e.Args)
 		}
 		fc.tfail("unknown method %s on %s", sel.Name, xt)
@@ -993,6 +1064,10 @@ func ghostSort(s string) string {
 		return "Bool"
 	case "iface":
 		return "Iface"
+	case "slice":
+		return "Slice"
+	case "func":
+		return "Func"
 	}
 	return s
 }
@@ -1005,6 +1080,12 @@ func ghostType(s string) types.Type {
 		return types.Typ[types.String]
 	case "bool":
 		return types.Typ[types.Bool]
+	case "iface":
+		return types.NewInterfaceType(nil, nil)
+	case "slice":
+		return types.NewSlice(types.Typ[types.Uint8])
+	case "func":
+		return types.NewSignatureType(nil, nil, nil, nil, nil, false)
 	}
 	return types.Typ[types.UnsafePointer]
 }
